@@ -133,6 +133,9 @@ Judge_union_rt(c) ==
              ELSE LET re == Encode(t, nn.v, names, o) IN
                   IF ~re.ok \/ re.b # enc.b THEN Cl("C09.closure", "skip")
                   ELSE Tri("C09.closure", c.rewrite.ok /\ c.rewrite.bytes = w.bytes),
+             \* return_named_type together with the record-name override of the OTHER option family: named-type reporting as usual
+             IF "named_rro" \notin DOMAIN c \/ ~nn.ok \/ ~w.ok THEN Cl("C09.named_with_record_override", "skip")
+             ELSE Tri("C09.named_with_record_override", c.named_rro.ok /\ VEq(c.named_rro.v, nn.v)),
              \* return_record_name: pairs for record branches (inline or by name, "error" records included), bare values otherwise
              IF "recname" \notin DOMAIN c \/ ~w.ok THEN Cl("C09.record_name", "skip")
              ELSE IF HasNonRecordRefBranch(t, names, {}) THEN Cl("C09.record_name", "unspec")
